@@ -34,7 +34,7 @@ EXPLANATION = (
     "the bond length)."
 )
 ASSUMPTIONS = ["get_atom_coord / coord_subset hand out views / copies of the coordinate array as numpy indexing does"]
-FLOORS = {"C16.R1": 3, "C16.R2": 3, "C16.R3": 2, "C16.R4": 4, "C16.R5": 4}
+FLOORS = {"C16.R6": 2, "C16.R1": 3, "C16.R2": 3, "C16.R3": 2, "C16.R4": 4, "C16.R5": 4}
 
 
 def run(chk):
@@ -46,6 +46,7 @@ def run(chk):
     r3_coverage(chk, f, branches)
     r4_formula(chk, f)
     r5_length(chk, f)
+    r6_orientation_and_table(chk, f)
 
 
 def _loop(f):
@@ -288,3 +289,60 @@ def r5_length(chk, f):
         ok = "L" in names and "a_coord" in names and offset_ok
         chk.decide(ok, "C16.R5", f"{f.key}:coordinate-{i}:depends-on-position-and-length", f.where(c), f"`{short(coord, 40) if coord is not None else None}` derives from a_coord and L",
                    f"the coordinate `{short(coord, 50) if coord is not None else None}` of a new hydrogen does not depend on " + " / ".join(x for x, y in (("the atom's position", "a_coord" in names), ("the bond length L", "L" in names)) if not y))
+
+
+def r6_orientation_and_table(chk, f):
+    """(a) the plane normal returned by mean_plane has an arbitrary sign; it is oriented by multiplying with `align`
+    (its projection on the direction to the neighbours' centroid).  The guard around that multiplication may test the
+    magnitude of `align` only: a guard that also tests its sign leaves one of the two orientations unflipped.
+    (b) the tetrahedron table that is scaled by L must consist of unit vectors at the tetrahedral angle, first vertex +z."""
+    from .c13 import _parity
+
+    loop = _loop(f)
+    asg = assignments(f.node)
+    flips = [s for s in walk_no_nested(loop) if isinstance(s, ast.AugAssign) and isinstance(s.op, ast.Mult) and norm(s.target) == "vec"]
+    key = f"{f.key}:normal-oriented-for-both-signs"
+    if not flips:
+        # another idiom (e.g. np.sign / copysign) - look for any use of align on vec
+        if "align" in asg:
+            raise AnalysisError(f"{f.key}: orientation of the plane normal - unknown idiom")
+        chk.ok("C16.R6", key, f.where(), "no plane-normal orientation step", trivial=True)
+    else:
+        fl = flips[0]
+        var = [n for n in names_in(fl.value)]
+        chk.require(len(var) == 1, f"{f.key}: orientation factor `{norm(fl.value)}` - unknown idiom")
+        v = var[0]
+        guards = [g for g in walk_no_nested(loop) if isinstance(g, ast.If) and any(x is fl for x in g.body) and v in names_in(g.test)]
+        par = [_parity(g.test, v, {}) for g in guards]
+        ok = _parity(fl.value, v, {}) == "odd" and all(p in ("even", "none") for p in par)
+        chk.decide(ok, "C16.R6", key, f.where(guards[0] if guards else fl), f"`vec *= {norm(fl.value)}` under a guard that tests only the magnitude of {v}",
+                   f"the guard `{norm(guards[0].test) if guards else ''}` around `{short(fl, 30)}` depends on the sign of `{v}`: when the plane normal comes out pointing away from the "
+                   "neighbours it is not turned round, and the new hydrogen is placed towards the neighbours' centroid instead of away from it")
+    # (b) the table
+    prog = chk.prog
+    m = prog.module("molli.math.polyhedra")
+    node = m.top.get("TETRAHEDRON")
+    chk.require(node is not None, "TETRAHEDRON vanished")
+    try:
+        tbl = prog.const_eval(m, node.value)
+        rows = [[float(x) for x in r] for r in tbl]
+    except Exception as e:
+        raise AnalysisError(f"TETRAHEDRON is not a literal table ({e})")
+    where = f"{m.relpath}:{node.lineno}"
+    problems = []
+    if len(rows) != 4 or any(len(r) != 3 for r in rows):
+        problems.append(f"shape {len(rows)}x{len(rows[0]) if rows else 0}")
+    else:
+        for i, r in enumerate(rows):
+            n2 = sum(x * x for x in r)
+            if abs(n2 - 1.0) > 1e-6:
+                problems.append(f"vertex {i} has length {n2 ** 0.5:.4f}, not 1")
+        for i in range(4):
+            for j in range(i + 1, 4):
+                d = sum(a * b for a, b in zip(rows[i], rows[j]))
+                if abs(d + 1.0 / 3.0) > 1e-6 and not problems:
+                    problems.append(f"vertices {i},{j} make cos = {d:.4f}, not -1/3")
+        if [round(x, 6) for x in rows[0]] != [0.0, 0.0, 1.0]:
+            problems.append("vertex 0 is not +z (it is the one mapped onto the neighbour direction)")
+    chk.decide(not problems, "C16.R6", "molli.math.polyhedra:TETRAHEDRON:unit-regular", where, "four unit vectors at the tetrahedral angle, vertex 0 = +z",
+               "TETRAHEDRON: " + "; ".join(problems) + " - hydrogens placed from it are not at the sum of covalent radii / not tetrahedral")
